@@ -12,7 +12,7 @@ EXPLANATION = (
     "infeasibility, the build invariant (cmd.build() dominates the body and Arg::_build always sets num_vals) or an audited "
     "entry in audit/c18.tsv. R18.3 candidate provenance/filters — option and subcommand candidates are built from the "
     "alias-exposing getters of the command's own arguments/subcommands, every non-empty-prefix branch applies a "
-    "starts_with filter, hidden candidates are dropped only under the any-visible test. NOT decided: agreement of the "
+    "starts_with filter, hidden candidates are dropped only under the any-visible test, hidden aliases are marked after the populate step. R18.4 — the shadow parse enters its option-awaiting-value state under exactly the condition the real parser uses (takes values && no `=value` part / no attached short value) and switches to escaped mode only on `--`. NOT decided: agreement of the "
     "shadow parse with the real parser on every argv (needs execution)."
 )
 TRUSTED = ["rustc MIR", "clapfacts", "lib/vset.py", "audit/c18.tsv entries (read, reason per line)"]
@@ -157,12 +157,51 @@ def run(ctx):
         missing = [r_ for r_ in reqs if not tree_calls(b, r_)]
         res.check(not missing, "R18.3", "provenance|" + fn_, b.where(), "built from %s" % [x.split("::")[-1].rstrip("$") for x in reqs],
                   "%s no longer draws candidates from %s" % (fn_, missing))
-    # hidden aliases are marked hide(true): the argument of `hide` in hidden_longs_aliases is the constant true
+    # hidden aliases are marked hide(true) *after* populate_*_candidate (whose own .hide(<item>.is_hide_set())
+    # would otherwise overwrite the mark): the receiver of hide(true) is the populate call's result
     for fn_ in ("hidden_longs_aliases", "subcommands"):
         b = fx.body("clap_complete::engine::complete::" + fn_)
         hs = [c for c in tree_calls(b, r"CompletionCandidate::hide$")]
-        res.check(any(op_int(c.args[1]) == 1 for c in hs), "R18.3", "hidden-marked|" + fn_, b.where(), "hidden aliases carry hide(true)",
-                  "hidden aliases are not marked hidden in %s" % fn_)
+        good = [c for c in hs if op_int(c.args[1]) == 1 and re.match(r"^populate_(arg|command)_candidate\(", expr(c.body, c.args[0], 4))]
+        res.check(bool(good), "R18.3", "hidden-marked|" + fn_, b.where(), "hidden aliases: hide(true) applied to the populated candidate",
+                  "hidden aliases in %s are not marked hidden after populate_*_candidate (the populate step resets `hidden` from the item)" % fn_)
+    for fn_ in ("populate_arg_candidate", "populate_command_candidate"):
+        b = fx.body("clap_complete::engine::complete::" + fn_)
+        hs = b.calls_to(r"CompletionCandidate::hide$")
+        res.check(len(hs) == 1 and re.match(r"^is_hide_set\(", expr(b, hs[0].args[1], 4)) is not None, "R18.3", "hidden-from-item|" + fn_, b.where(),
+                  "candidate visibility copied from the item's is_hide_set()", "%s does not copy is_hide_set() of the item" % fn_)
+
+    # ---------------- R18.4 shadow-parse transitions mirror the grammar of the real parser
+    ns = comp.locals_named("next_state")
+    res.floor("R18.4", "`next_state` local", len(ns), 1)
+    opt_sets = []
+    for i, j, s_ in comp.stmts():
+        if s_["k"] == "assign" and pl_local(s_["place"]) in ns:
+            rv = s_["rv"]
+            if (rv["k"] == "agg" and rv.get("variant") == "Opt") or (rv["k"] == "use" and op_place(rv["op"]) is not None and "Opt" in agg_variants(comp, rv["op"])):
+                opt_sets.append((i, s_))
+    res.floor("R18.4", "transitions into ParseState::Opt", len(opt_sets), 2)
+    for i, s_ in opt_sets:
+        gl = guard_strs(comp, i)
+        is_long = any(g.startswith("V1:to_long(") or g.startswith("V0:to_long(") for g in gl)
+        if is_long:
+            # real parser: a long option awaits a value iff it takes values and no `=value` part was given (has_eq = long_value.is_some())
+            ok_ = any(re.match(r"^T:takes_values\(", g) for g in gl) and \
+                any(re.match(r"^(T:is_none|F:is_some)\(to_long\(.*\.1\)$", g) or re.match(r"^V0:to_long\(.*\.1$", g) for g in gl)
+            res.check(ok_, "R18.4", "opt-pending|long", "%s in %s" % (sp_str(s_["sp"]), comp.q),
+                      "Opt entered iff takes_values() && value.is_none()",
+                      "long option enters the pending-value state under a different condition than the real parser (takes_values && no `=value` part): guards %s" % gl[-3:])
+        else:
+            ok_ = any(re.match(r"^(T:is_none|F:is_some)\(next_value_os\(", g) for g in gl) and any(re.match(r"^V1:parse_shortflags\(.*\.1$", g) for g in gl)
+            res.check(ok_, "R18.4", "opt-pending|short", "%s in %s" % (sp_str(s_["sp"]), comp.q),
+                      "Opt entered iff a value-taking short was found and no attached value remains",
+                      "short option enters the pending-value state under a different condition: guards %s" % gl[-3:])
+    # escape switch only on `--`
+    esc_sets = [(i, s_) for i, j, s_ in comp.stmts() if s_["k"] == "assign" and pl_local(s_["place"]) in esc and s_["rv"]["k"] == "use" and op_int(s_["rv"]["op"]) == 1]
+    res.floor("R18.4", "is_escaped = true sites", len(esc_sets), 1)
+    for i, s_ in esc_sets:
+        res.check(has_bool(comp, i, "T", r"^is_escape\("), "R18.4", "escape-switch", "%s in %s" % (sp_str(s_["sp"]), comp.q),
+                  "is_escaped set only when the token is `--`", "is_escaped set without an is_escape() test")
     # hidden candidates dropped only when something visible exists
     ca = fx.body("clap_complete::engine::complete::complete_arg")
     rets = [c for c in ca.calls_to(r"Vec::retain$")]
